@@ -256,6 +256,9 @@ func decryptKeyV3(keyProtected *encryptedKeyJSONV3, auth string) (keyBytes []byt
 		return nil, nil, ErrDecrypt
 	}
 
+	if len(iv) != aes.BlockSize {
+		return nil, nil, fmt.Errorf("invalid IV length %d", len(iv))
+	}
 	plainText, err := aesCTRXOR(derivedKey[:16], cipherText, iv)
 	if err != nil {
 		return nil, nil, err
@@ -290,6 +293,9 @@ func decryptKeyV1(keyProtected *encryptedKeyJSONV1, auth string) (keyBytes []byt
 		return nil, nil, ErrDecrypt
 	}
 
+	if len(iv) != aes.BlockSize || len(cipherText)%aes.BlockSize != 0 {
+		return nil, nil, fmt.Errorf("invalid IV or ciphertext length")
+	}
 	plainText, err := aesCBCDecrypt(crypto.Keccak256(derivedKey[:16])[:16], cipherText, iv)
 	if err != nil {
 		return nil, nil, err
@@ -299,21 +305,50 @@ func decryptKeyV1(keyProtected *encryptedKeyJSONV1, auth string) (keyBytes []byt
 
 func getKDFKey(cryptoJSON cryptoJSON, auth string) ([]byte, error) {
 	authArray := []byte(auth)
-	salt, err := hex.DecodeString(cryptoJSON.KDFParams["salt"].(string))
+	saltHex, ok := cryptoJSON.KDFParams["salt"].(string)
+	if !ok {
+		return nil, fmt.Errorf("invalid KDF params: salt missing or not a string")
+	}
+	salt, err := hex.DecodeString(saltHex)
 	if err != nil {
 		return nil, err
 	}
-	dkLen := ensureInt(cryptoJSON.KDFParams["dklen"])
+	dkLen, err := ensureInt(cryptoJSON.KDFParams["dklen"])
+	if err != nil {
+		return nil, err
+	}
+	if dkLen <= 0 {
+		return nil, fmt.Errorf("invalid KDF params: dklen %d", dkLen)
+	}
 
 	if cryptoJSON.KDF == keyHeaderKDF {
-		n := ensureInt(cryptoJSON.KDFParams["n"])
-		r := ensureInt(cryptoJSON.KDFParams["r"])
-		p := ensureInt(cryptoJSON.KDFParams["p"])
+		n, err := ensureInt(cryptoJSON.KDFParams["n"])
+		if err != nil {
+			return nil, err
+		}
+		r, err := ensureInt(cryptoJSON.KDFParams["r"])
+		if err != nil {
+			return nil, err
+		}
+		p, err := ensureInt(cryptoJSON.KDFParams["p"])
+		if err != nil {
+			return nil, err
+		}
+		if r <= 0 || p <= 0 {
+			// scrypt.Key divides by r and p
+			return nil, fmt.Errorf("invalid scrypt params: r=%d p=%d", r, p)
+		}
 		return scrypt.Key(authArray, salt, n, r, p, dkLen)
 
 	} else if cryptoJSON.KDF == "pbkdf2" {
-		c := ensureInt(cryptoJSON.KDFParams["c"])
-		prf := cryptoJSON.KDFParams["prf"].(string)
+		c, err := ensureInt(cryptoJSON.KDFParams["c"])
+		if err != nil {
+			return nil, err
+		}
+		prf, ok := cryptoJSON.KDFParams["prf"].(string)
+		if !ok {
+			return nil, fmt.Errorf("invalid KDF params: prf missing or not a string")
+		}
 		if prf != "hmac-sha256" {
 			return nil, fmt.Errorf("Unsupported PBKDF2 PRF: %s", prf)
 		}
@@ -324,13 +359,14 @@ func getKDFKey(cryptoJSON cryptoJSON, auth string) ([]byte, error) {
 	return nil, fmt.Errorf("Unsupported KDF: %s", cryptoJSON.KDF)
 }
 
-// TODO: can we do without this when unmarshalling dynamic JSON?
-// why do integers in KDF params end up as float64 and not int after
-// unmarshal?
-func ensureInt(x interface{}) int {
-	res, ok := x.(int)
-	if !ok {
-		res = int(x.(float64))
+// ensureInt converts a number of the dynamically typed KDF params (float64
+// after json.Unmarshal into interface{}) to int.
+func ensureInt(x interface{}) (int, error) {
+	switch v := x.(type) {
+	case int:
+		return v, nil
+	case float64:
+		return int(v), nil
 	}
-	return res
+	return 0, fmt.Errorf("invalid KDF params: %v is not a number", x)
 }
